@@ -1,5 +1,5 @@
 SPECIFICATION Spec
-CONSTANTS Pfx = {"A", "B"} MaxHops = 2 MaxCid = 2 QCap = 100 MaxDepth = 3 LeakDetached = FALSE AnyState = FALSE MaxInst = 2 Lifecycle = FALSE UnloadClears = FALSE CandInit = {TRUE, FALSE}
+CONSTANTS Pfx = {"A", "B"} MaxHops = 1 MaxCid = 1 QCap = 100 MaxDepth = 5 LeakDetached = FALSE AnyState = FALSE MaxInst = 3 Lifecycle = TRUE UnloadClears = FALSE CandInit = {FALSE}
 INVARIANT TypeOK
 INVARIANT NoRawForAnon
 INVARIANT TunnelledOnlyOverReadyRightCircuit
